@@ -422,6 +422,7 @@ func aggregate(id, tier string, seed int64, pi propInfo, outs []*hx.ShardOut, xr
 	var violLines, knownLines []string
 	nviol := 0
 	knownSeen := map[string]bool{}
+	violSeen := map[string]bool{}
 	for _, name := range order {
 		u := units[name]
 		for _, v := range u.Violations {
@@ -435,11 +436,12 @@ func aggregate(id, tier string, seed int64, pi propInfo, outs []*hx.ShardOut, xr
 					}
 				}
 			}
-			if known {
+			if known || violSeen[v.Signature] {
 				continue
 			}
+			violSeen[v.Signature] = true
 			nviol++
-			h := sha1.Sum([]byte(v.Signature + "|" + v.Unit))
+			h := sha1.Sum([]byte(v.Signature))
 			path := filepath.Join(verifDir, "evidence", "replays", fmt.Sprintf("%s-%x.json", id, h[:5]))
 			b, _ := json.MarshalIndent(v, "", " ")
 			os.WriteFile(path, b, 0o644)
